@@ -382,3 +382,103 @@ func rjvSpecValid(data []byte) bool {
 	}
 	return true
 }
+
+// rjvSpecDecodeString: the content of a string token (the bytes between its quotes) decoded per
+// RFC 8259 section 7: unescaped bytes are copied verbatim (even when they are not valid UTF-8),
+// the two-character escapes give their byte, \uXXXX gives the UTF-8 encoding of the code point,
+// a high surrogate escape directly followed by a low surrogate escape gives the combined code
+// point, any other surrogate escape gives U+FFFD. ok is false when the content is malformed.
+func rjvSpecDecodeString(content []byte) (out []byte, ok bool) {
+	hexv := func(b byte) int {
+		switch {
+		case b >= '0' && b <= '9':
+			return int(b - '0')
+		case b >= 'a' && b <= 'f':
+			return int(b-'a') + 10
+		case b >= 'A' && b <= 'F':
+			return int(b-'A') + 10
+		}
+		return -1
+	}
+	u4 := func(i int) int {
+		if i+6 > len(content) || content[i] != '\\' || content[i+1] != 'u' {
+			return -1
+		}
+		v := 0
+		for k := 2; k < 6; k++ {
+			h := hexv(content[i+k])
+			if h < 0 {
+				return -1
+			}
+			v = v<<4 | h
+		}
+		return v
+	}
+	enc := func(r int) {
+		switch {
+		case r < 0x80:
+			out = append(out, byte(r))
+		case r < 0x800:
+			out = append(out, byte(0xC0|r>>6), byte(0x80|r&0x3F))
+		case r < 0x10000:
+			out = append(out, byte(0xE0|r>>12), byte(0x80|(r>>6)&0x3F), byte(0x80|r&0x3F))
+		default:
+			out = append(out, byte(0xF0|r>>18), byte(0x80|(r>>12)&0x3F), byte(0x80|(r>>6)&0x3F), byte(0x80|r&0x3F))
+		}
+	}
+	out = []byte{}
+	for i := 0; i < len(content); {
+		b := content[i]
+		switch {
+		case b == '"' || b < 0x20:
+			return nil, false
+		case b != '\\':
+			out = append(out, b)
+			i++
+		default:
+			if i+1 >= len(content) {
+				return nil, false
+			}
+			switch content[i+1] {
+			case '"', '\\', '/':
+				out = append(out, content[i+1])
+				i += 2
+			case 'b':
+				out = append(out, 8)
+				i += 2
+			case 'f':
+				out = append(out, 12)
+				i += 2
+			case 'n':
+				out = append(out, 10)
+				i += 2
+			case 'r':
+				out = append(out, 13)
+				i += 2
+			case 't':
+				out = append(out, 9)
+				i += 2
+			case 'u':
+				r := u4(i)
+				if r < 0 {
+					return nil, false
+				}
+				if r >= 0xD800 && r < 0xDC00 {
+					if r2 := u4(i + 6); r2 >= 0xDC00 && r2 < 0xE000 {
+						enc(0x10000 + (r-0xD800)<<10 + (r2 - 0xDC00))
+						i += 12
+						continue
+					}
+				}
+				if r >= 0xD800 && r < 0xE000 {
+					r = 0xFFFD
+				}
+				enc(r)
+				i += 6
+			default:
+				return nil, false
+			}
+		}
+	}
+	return out, true
+}
